@@ -748,6 +748,14 @@ class EbuildProcessor:
         escaped = val.replace("\\", "\\\\").replace("'", "\\'")
         return f"$'{escaped}'"
 
+    def _byte_len(self, data):
+        """Size of a raw transfer as the daemon's `read -N` counts it.
+
+        The daemon runs in the C locale, so it counts the bytes written to
+        the pipe rather than the characters of the string.
+        """
+        return len(data.encode(self.ebd_write.encoding, self.ebd_write.errors))
+
     def _generate_env_str(self, env_dict):
         env_dict = dict(env_dict)
         # EAPI 9+ marks variables that must be set but not exported (see PMS);
@@ -808,7 +816,8 @@ class EbuildProcessor:
             self.write(f"start_receiving_env file {path}")
         else:
             self.write(
-                f"start_receiving_env bytes {len(data)}\n{data}", append_newline=False
+                f"start_receiving_env bytes {self._byte_len(data)}\n{data}",
+                append_newline=False,
             )
         os.umask(old_umask)
         return self.expect("env_received", async_req=async_req, flush=True)
@@ -841,7 +850,9 @@ class EbuildProcessor:
         # filter here, so that a screwy default doesn't result in resetting it
         # every time.
         data = os.pathsep.join(filter(None, paths))
-        self.write(f"set_metadata_path {len(data)}\n{data}", append_newline=False)
+        self.write(
+            f"set_metadata_path {self._byte_len(data)}\n{data}", append_newline=False
+        )
         if self.expect("metadata_path_received", flush=True):
             self._metadata_paths = paths
 
@@ -856,7 +867,7 @@ class EbuildProcessor:
 
         env = expected_ebuild_env(package_inst, env, depends=True)
         data = self._generate_env_str(env)
-        self.write(f"{command} {len(data)}\n{data}", append_newline=False)
+        self.write(f"{command} {self._byte_len(data)}\n{data}", append_newline=False)
 
         updates = None
         if self._eclass_caching:
